@@ -1,6 +1,6 @@
 From Coq Require Import List ZArith String Ascii Bool NArith Lia.
 Import ListNotations.
-From Bexpr Require Import Base Ast Unicode Peg Typing Actions GoGrammar Sem Term Lex Lex2 Lex3 Calc Calc2 Skel Top Atoms StrLit AtomsEq Spell Coll AtomsIn.
+From Bexpr Require Import Base Ast Unicode Peg Typing Actions GoGrammar Sem Term Lex Lex2 Lex3 Calc Calc2 Skel Top Atoms StrLit AtomsEq Spell RawLit Coll AtomsIn.
 Open Scope string_scope.
 
 (* The three literal styles of a value: "double-quoted", `raw`, and bare (a dotted word). *)
@@ -32,40 +32,7 @@ Proof.
   - intros k. cbn. exact (proj2 (head_letter _ (proj1 Hi))).
 Defined.
 
-(* ---- raw (back-quoted) ---- *)
-Definition not_bq (c : cell) : Prop := crune c <> 96%Z.
-
-Lemma rsc_ok c rest : not_bq c -> pe_any (PRef "RawStringChar") (c :: rest) rest.
-Proof.
-  intros Hc. eapply pe_ok_any. eapply ref_any; [reflexivity|]. cbn [rexpr].
-  apply seq_any. eapply seqs_any_cons.
-  - eapply pe_ok_any. apply not_ok. exact (fails_f (head_not 96) _ (c :: rest) (fails_lit 96 []) Hc).
-  - eapply seqs_any_cons; [eapply pe_ok_any; apply any_ok| apply seqs_any_nil].
-Qed.
-Lemma rsc_fails q rest : crune q = 96%Z -> fspecj (PRef "RawStringChar") (q :: rest).
-Proof.
-  intros Hq. eapply fref; [reflexivity|]. cbn [rexpr]. apply fseq. apply fseqs_here.
-  eapply not_fails. eapply pe_ok_any. apply (lit_ok [96]%Z [q] rest). cbn. rewrite Hq. reflexivity.
-Qed.
-
-Theorem raw_literal_spec q cs q' k lit :
-  crune q = 96%Z -> crune q' = 96%Z -> Forall not_bq cs ->
-  unquote (cells_str (q :: app cs [q'])) = Some lit ->
-  spec (PRef "StringLiteral") (q :: app cs (q' :: k)) (VStr lit) k.
-Proof.
-  intros Hq Hq' Hcs Hu.
-  eapply ref_ok; [reflexivity|]. cbn [rexpr]. apply spec_j. apply choice_ok. apply specc_here.
-  eapply action_any.
-  - apply choice_any. apply pec_here. apply seq_any.
-    eapply seqs_any_cons; [eapply pe_ok_any; apply (lit_ok [96]%Z [q] _); cbn; rewrite Hq; reflexivity|].
-    eapply seqs_any_cons; [eapply pe_ok_any; apply (star_ok _ not_bq (q' :: k) rsc_ok (rsc_fails q' k Hq') cs Hcs)|].
-    eapply seqs_any_cons; [eapply pe_ok_any; apply (lit_ok [96]%Z [q'] k); cbn; rewrite Hq'; reflexivity|].
-    apply seqs_any_nil.
-  - intros G. rewrite action_strlit.
-    rewrite (text_between_prefix' (q :: app cs [q']) k); [rewrite Hu; reflexivity|].
-    cbn [app]. rewrite <- app_assoc. reflexivity.
-Qed.
-
+(* ---- raw (back-quoted): the StringLiteral lemmas are in RawLit.v ---- *)
 Section RawValue.
 Variables (q : cell) (rest : list cell).
 Hypothesis Hq : crune q = 96%Z.
